@@ -15,7 +15,8 @@ TECHNIQUE = 'explicit-state BFS over set/delete/merge histories of the real Boun
 RULE = ('container configs: capacity{None,0,1,2} x value limit{None,2} x immutable{F,T}; operations set(k,v) k in {a,b,c,"",1} v in 17 values '
         '(valid scalars, long string, decodable/undecodable bytes, None, homogeneous/mixed/None-holding sequences, bytes tuple, dict, object), '
         'del(k), merge_in(3 sources); canonical state = ordered items (dropped is checked per transition); resources: all 24^3 merge chains; '
-        'create x env table; Deep.start x 0-2 resource plugins x both orders; non-trivial = an eviction, a rejection or an override happened')
+        'create x env table; Deep.start x 0-2 resource plugins x both orders; non-trivial = an eviction, a rejection or an override happened'
+        ' ; Resource.create with process.executable.name of every valid attribute value type')
 ASSUMPTIONS = ['dropped at capacity 0 is bounded below by the valid sets and above by all sets',
                'canonical state omits `dropped` because nothing reads it (checked per transition instead): bisimulation for bounded capacity',
                'a sequence element that is undecodable bytes is outside the alphabet']
